@@ -66,8 +66,8 @@ type config struct {
 
 // world is the application state.
 type world struct {
-	Store          map[string]jmap   // id -> serialised value (as a real database would hold it)
-	Owned          map[string]bool   // ids this server owns
+	Store          map[string]jmap // id -> serialised value (as a real database would hold it)
+	Owned          map[string]bool // ids this server owns
 	ActorForOutbox map[string]string
 	ActorForInbox  map[string]string
 	OutboxForInbox map[string]string
@@ -195,6 +195,10 @@ func (r *recorder) Unlock(c context.Context, id *url.URL) error {
 	r.held[us(id)]--
 	if r.sched != nil {
 		r.sched.release(r.tid, us(id))
+	}
+	if r.fail() {
+		r.rec(entry{Kind: "unlock", Name: us(id), Ans: answer{Kind: "err"}})
+		return errInjected
 	}
 	r.rec(entry{Kind: "unlock", Name: us(id), Ans: answer{Kind: "ok"}})
 	return nil
@@ -913,10 +917,26 @@ func buildActor(r *recorder) pub.FederatingActor {
 		return pub.NewActor(commonImpl{r}, socImpl{r}, fedImpl{r}, r, r)
 	case r.cfg.Federating:
 		return pub.NewFederatingActor(commonImpl{r}, fedImpl{r}, r, r)
-	default:
+	case r.cfg.Social:
 		a := pub.NewSocialActor(commonImpl{r}, socImpl{r}, r, r)
 		return socialOnly{a}
+	default:
+		return socialOnly{pub.NewCustomActor(bareDelegate{r: r}, false, false, r)}
 	}
+}
+
+// bareDelegate: the delegate of an actor with both protocols off.  Nothing of it may be consulted for a POST (405); the two
+// authentication methods record the call, anything else is a nil dereference.
+type bareDelegate struct {
+	pub.DelegateActor
+	r *recorder
+}
+
+func (d bareDelegate) AuthenticatePostInbox(c context.Context, w http.ResponseWriter, q *http.Request) (context.Context, bool, error) {
+	return d.r.authenticate("AuthenticatePostInbox", c)
+}
+func (d bareDelegate) AuthenticatePostOutbox(c context.Context, w http.ResponseWriter, q *http.Request) (context.Context, bool, error) {
+	return d.r.authenticate("AuthenticatePostOutbox", c)
 }
 
 // socialOnly adapts an Actor to FederatingActor for uniform handling (Send is not available).
